@@ -35,7 +35,8 @@ def shift1d(ctx, rng, idx):
     tw = gen.Spec(spec.mname, spec.mparams, spec.faces, spec.rname, spec.flux, spec.bcL, spec.bcR, [np.roll(p, k) for p in spec.prim], section=(lambda x: 1.0 + 0 * x) if spec.mname == "nozzle" else None)
     spec.section = tw.section
     model, mesh, disc, f = spec.build()
-    model2, mesh2, disc2, f2 = tw.build()
+    share = bool(rng.random() < 0.5)        # the rolled twin reuses the scheme and model objects of the original problem
+    model2, mesh2, disc2, f2 = tw.build(num=disc.num if share else None, model=model if share else None)
     cfl = float(rng.uniform(0.1, 0.4) if not implicit else rng.uniform(0.2, 1.5))
     nstep = int(rng.integers(1, 7 if not implicit else 4))
     ctx.describe(n=n, shift=k, integrator=iname, cfl=cfl, nstep=nstep, **spec.desc())
